@@ -49,6 +49,11 @@ Holds(r, ev) ==
                                ELSE /\ IsRoute(UG(r), {}, {}, ev.paths[1])
                                     /\ ev.ret = Min({Wt(r, e) : e \in EdgesOfSeq(ev.paths[1])})
                                     /\ \A p \in STP(r) : Min({Wt(r, e) : e \in EdgesOfSeq(p)}) <= ev.ret
+    [] ev.op = "max_occurrence" ->      \* largest listed length (absent = 1) of seq positions lying on one of the paths
+         LET seq == ev.arg[1]  paths == ev.arg[2]  lens == ev.arg[3]
+             LenOfE(e) == LET S == {t \in ToSet(lens) : <<t[1], t[2]>> = e} IN IF S = {} THEN 1 ELSE (CHOOSE t \in S : TRUE)[3]
+             On(p) == SumOver({j \in 1..Len(seq) : Count(<<seq[j][1], seq[j][2]>>, p) >= 1}, LAMBDA j : LenOfE(<<seq[j][1], seq[j][2]>>))
+         IN ev.ret = Max({On(paths[i]) : i \in 1..Len(paths)} \cup {0})
     [] OTHER -> TRUE
 
 Init == tid \in DOMAIN Recs /\ l = 1 /\ bad = {}
